@@ -8,15 +8,16 @@ RULE = ("state = server script (event history) replayed against a fresh QXmppCli
         "(with/without version and id), 15 feature sets (starttls absent/offered/required x SASL / SASL2+bind2+FAST / legacy auth / "
         "bind+sm / empty), <proceed/> followed by a real handshake, TLS <failure/>, legacy-auth field offer and empty IQ result with the "
         "last seen id, IQ gets (version, disco#info, unknown), SASL success/challenge, SM enabled/<r/>, message, presence subscribe, "
-        "see-other-host; client configurations: all mechanisms on, SASL2 off, legacy auth off, FAST token present, legacy only, legacy "
+        "see-other-host, and - once a connection is encrypted and the authentication exchange has begun - loss of that connection followed "
+        "by a reconnect to a server that does not encrypt yet (the script then continues in clear); client configurations: all mechanisms on, SASL2 off, legacy auth off, FAST token present, legacy only, legacy "
         "plain. Oracle in every state: every byte received by the server while the link is unencrypted is an XML declaration, a stream "
         "header, <starttls/> or </stream:stream>; after <proceed/> the next bytes are a TLS ClientHello; no planted secret (password, "
         "SASL PLAIN response, legacy digest, FAST token, resource, SCRAM client-first) occurs in them; if TLS cannot be negotiated "
         "(features without starttls, TLS failure) the client disconnects; no session is reported unencrypted.")
 ASSUME = ["scripts start with exactly one stream header (nothing is parseable before it)",
-          "after the TLS handshake completes the search stops (one friendly step witnesses that credentials are then sent encrypted)",
+          "on the encrypted stream only one friendly step is driven (it witnesses that credentials are then sent encrypted); the search continues through a connection loss + reconnect, at most once per history",
           "direct TLS (LegacySSL) and TLSEnabled/TLSDisabled modes are outside this property"]
-WIT = ["tls_completed", "credentials_sent_encrypted", "client_gave_up"]
+WIT = ["tls_completed", "credentials_sent_encrypted", "client_gave_up", "reconnected_after_tls"]
 
 
 def run(tier):
@@ -24,7 +25,7 @@ def run(tier):
     if tier == "thorough":
         cfgs = [dict(name="cfg%d" % i, config={"cfg": i}, depth=9, dev=6, deadline=600) for i in range(6)]
         return bfs_check(PROP, HARNESS, tier, cfgs, RULE, ASSUME, witness_required=WIT)
-    cfgs = [dict(name="cfg%d" % i, config={"cfg": i}, depth=5, dev=3, deadline=150) for i in range(6)]
+    cfgs = [dict(name="cfg%d" % i, config={"cfg": i}, depth=6, dev=4, deadline=200) for i in range(6)]
     return bfs_check(PROP, HARNESS, tier, cfgs, RULE, ASSUME, witness_required=WIT)
 
 
